@@ -301,6 +301,19 @@ class FA:
             self._endval[key] = r
         return r
 
+    def header_phis(self, h):
+        """phi atoms of integer locals at loop header h"""
+        out = []
+        for l, ty in enumerate(self.fn.locals):
+            if ty.get("k") in ("uint", "int"):
+                try:
+                    v = self.start_val(l, h)
+                except Exception:
+                    continue
+                if v.op == "phi" and v.args[2] == h and v.args[1] == l:
+                    out.append(v)
+        return out
+
     def phi_operands(self, t):
         """[(pred_block, term)] of a phi atom."""
         _, local, b = t.args
